@@ -18,8 +18,9 @@ MANIFEST = {
             "one round, from a parameter nothing is known about, the call sites leave exactly the distinct argument types "
             "(C15_round_collects); from ANY inferred state of earlier rounds the parameter afterwards admits the argument of every "
             "call site of the round — what a round replaces (first call site of a new round, the two-variant heuristic) it "
-            "replaces before recording anything of this round (C15_round_covers; C15_new_round_replaces shows the replacement). "
-            "The orchestration of the four rounds (which call sites a round reaches) is not modelled: the two kept findings live "
+            "replaces before recording anything of this round (C15_round_covers; C15_new_round_replaces: the pinned code also checked the replacing call site against the old type, "
+            "the repaired code accepts it). "
+            "The orchestration of the four rounds (which call sites a round reaches) is not modelled: the kept finding lives "
             "there. Tie: checkAndPropagateArgs is driven through a hook with one user-defined parameter (absent, single or union "
             "entry, inferred / default flags, any Round tag) and 1-4 call sites in one round; error, type and Round tag after "
             "every call are compared with the model by vm_compute. The type of a "
@@ -82,11 +83,6 @@ def part_e2e(ctx, part):
                 part.failures.append(Failure("call_before_definition", "the value of a call written before the method's definition lacks variants that later call sites add",
                                              {"shape": "dbtp of a call placed before the def, result depending on a parameter"}))
             else:
-                if methgen.round_heuristic_shape(pr) or any(methgen.round_heuristic_shape(q) for q in probes if q[2] is pr[2]):
-                    part.count("round_heuristic")
-                    part.failures.append(Failure("round_heuristic_three_params", "a call site written before the callee's definition whose three arguments all differ in type from another site's",
-                                                 {"shape": "early call site, three parameters changing type together"}))
-                    continue
                 what = "parameter %s of %s" % (pr[3], pr[2].name) if pr[1] == "param" else "call of %s" % pr[2].name
                 part.failures.append(Failure("wrong_inferred_type", "%s on row %d: the call sites give %s, ti reports %s" % (
                     what, pr[0], sorted(want), (got.get(pr[0]) or [None])[0]), {"program": src, "row": pr[0]}))
@@ -199,16 +195,12 @@ def part_returns_tie(ctx, part):
 PARTS = [c09.part_tyops_corr, c14.part_sorters, propcorr.part_propagate, part_returns_tie, part_e2e, part_keyword_prefix_names, part_body_operations]
 
 CALL_BEFORE_DEF = "dbtp um2(1.5, \"s\", k2: 1)\ndef um2(p20, p21, k2:)\n  if p20\n    return \"s\"\n  end\n  p21\nend\ndbtp um2(1, :a, k2: 1)\n"
-ROUND_WITNESS = "def early_caller\n  um1(1, 1.5, \"s\")\n  1\nend\ndef um1(p0, p1, p2)\n  dbtp p2\n  p0\nend\num1(:a, :a, 1)\nearly_caller()\n"
 
 
 def replay_finding(ctx, k):
     if k["id"] == "C15-call-before-def":
         x, got = run(CALL_BEFORE_DEF)
         return methgen.parse((got.get(1) or [None])[0]) != methgen.parse((got.get(8) or [None])[0])
-    if k["id"] == "C15-round-heuristic":
-        x, got = run(ROUND_WITNESS)
-        return "type mismatch" in x.out
     return None
 
 
